@@ -22,7 +22,7 @@ LEVEL = "proof"
 LEAN = ["SaVerif.Props.C34"]
 META = {
     "text": "Lean: for ALL histories of the transcribed session machine (add, delete, flush incl. failures, commit, rollback, savepoints, expunge, close, merge, get, queries with/without populate_existing, refresh, primary-key changes, make_transient*) no identity key occurs twice in the identity map (identity_unique, induction over the history; 70 preservation lemmas, one per transcribed function); Session.get for a present unexpired instance returns it with no SQL and no state change (all states); a load returns the identity map's instance for the row. The model is tied to the code by a per-operation differential run; the property itself (one persistent instance per key, queries/get/merge return that instance, no SQL when present) is re-checked on the real Session by an independent oracle.",
-    "note": "Not provable because false for the code as it is (counterexample theorems + known findings): identity-map entries can be detached/deleted instances; two attached instances can share a key after identity_map.replace evicts one. Modelled-not-verified: SQLite as a set of primary keys; yield_per only on the real side (the model has no buffering); identity tokens are not modelled in Lean (single token None); they are covered by the direct oracle only (get / query with identity_token, same primary key under several tokens, instances with a token leaving the Session, travelling through pickle, re-attached with add, changed and flushed: the instance returned carries exactly the requested (pk, token) and is the identity map's, no SQL when it is present and unexpired, the token of an instance never changes). One mapper, one integer primary key.",
+    "note": "Not provable because false for the code as it is (counterexample theorems + known findings): identity-map entries can be detached/deleted instances; two attached instances can share a key after identity_map.replace evicts one. Modelled-not-verified: SQLite as a set of primary keys; yield_per only on the real side (the model has no buffering); identity tokens are not modelled in Lean (single token None); they are covered by the direct oracle only (get / query with identity_token, same primary key under several tokens, instances with a token leaving the Session, travelling through pickle, re-attached with add, changed and flushed: the instance returned carries exactly the requested (pk, token) and is the identity map's, no SQL when it is present and unexpired, the token of an instance never changes; merge of a token-carrying source returns the identity map's instance for exactly that (pk, token)). One mapper, one integer primary key.",
     "technique": "Lean 4 invariant proof by induction over operation histories of a transcribed session/identity-map machine + per-operation differential correspondence on SQLite",
     "design_ref": "DESIGN.md §3 C34",
 }
